@@ -186,6 +186,8 @@ def _make_schema(spec, mode="code", wrap=None, default_fields=None, root_default
     methods_for = {}
 
     def is_default(tn, fd):
+        if fd.get("absent"):
+            return True    # no resolver at all (and no method either: see below)
         return default_fields is not None and (root_defaults or tn not in roots) and default_fields(tn, fd["name"])
 
     def method(tn, fd):
@@ -197,7 +199,7 @@ def _make_schema(spec, mode="code", wrap=None, default_fields=None, root_default
 
     for tn in eff.objects():
         for fd in eff.fields(tn):
-            if is_default(tn, fd):
+            if is_default(tn, fd) and not fd.get("absent"):
                 methods_for.setdefault(tn, {})[fd["name"]] = method(tn, fd)
     if mode == "sdl":
         from py_gql import build_schema
